@@ -208,7 +208,10 @@ SMOOTHERS = [('gauss_seidel', {'sweep': 'symmetric'}), ('gauss_seidel', {'sweep'
              ('jacobi', {'omega': 0.7, 'iterations': 2}), ('schwarz', {'iterations': 2}),
              # genuine 2x2 blocks (blocksize 1 is replaced by the point method in the setup); fall back to 1 on odd sizes
              ('block_gauss_seidel', {'sweep': 'forward', 'blocksize': 2}), ('block_jacobi', {'blocksize': 2}),
-             ('block_gauss_seidel', {'sweep': 'symmetric', 'blocksize': 2, 'iterations': 2})]
+             ('block_gauss_seidel', {'sweep': 'symmetric', 'blocksize': 2, 'iterations': 2}),
+             # no smoothing on one side; coarse/fine-ordered Jacobi (needs the C/F splitting kept with the hierarchy,
+             # otherwise replaced by Gauss-Seidel)
+             ('none', {}), ('cf_jacobi', {'omega': 0.7}), ('fc_jacobi', {'omega': 0.6, 'f_iterations': 2}), ('none', {})]
 
 
 def oracle_part(ctx):
@@ -222,6 +225,11 @@ def oracle_part(ctx):
                 sel.append((bname, f, mname, A))
     an, af, _ = hier.air_builder()
     sel.append((an, af, 'upwind-5x5', hier.nonsym_matrix(5)))
+    # classical hierarchies that keep their C/F splittings (for the coarse/fine-ordered smoothers), several levels deep
+    import pyamg
+    for mname, A in mats[:4]:
+        if not np.iscomplexobj(A.data):
+            sel.append(('rs-keep', lambda A_: pyamg.ruge_stuben_solver(sp.csr_array(A_), max_coarse=2, keep=True), mname, A))
     # every smoother family is used at least once before and once after the coarse-grid correction on a
     # hierarchy with >= 2 levels: build first, then deal the smoothers out over the multi-level hierarchies
     multi, single = [], []
@@ -234,7 +242,11 @@ def oracle_part(ctx):
         (multi if nl_ > 1 else single).append((bname, f, mname, A))
     plan = [multi[k % len(multi)] for k in range(max(len(multi), len(SMOOTHERS)))] if multi else []
     plan += single[:2]
-    for idx, (bname, f, mname, A) in enumerate(plan):
+    plan = [p_ + (None,) for p_ in plan]
+    for ent in [e for e in multi if e[0] in ('rs-keep', 'air')][:3]:
+        plan.append(ent + ((('cf_jacobi', {'omega': 0.7}), ('fc_jacobi', {'omega': 0.6, 'f_iterations': 2})),))
+        plan.append(ent + ((('fc_jacobi', {'omega': 0.8}), ('none', {})),))
+    for idx, (bname, f, mname, A, forced) in enumerate(plan):
         np.random.seed(ctx.seed)
         try:
             ml = f(A)
@@ -245,11 +257,17 @@ def oracle_part(ctx):
         from pyamg.multilevel import coarse_grid_solver
         ml.coarse_solver = coarse_grid_solver(coarse)
         pre, post = SMOOTHERS[idx % len(SMOOTHERS)], SMOOTHERS[(5 * idx + 3) % len(SMOOTHERS)]
+        if forced is not None:
+            pre, post = forced
+        if not all(hasattr(ml.levels[l], 'splitting') for l in range(nlev - 1)):
+            pre, post = [('gauss_seidel', {'sweep': 'backward'}) if nm in ('cf_jacobi', 'fc_jacobi') else (nm, kw) for nm, kw in (pre, post)]
+        if pre[0] == 'none' and post[0] == 'none':
+            post = ('gauss_seidel', {'sweep': 'symmetric'})
         if any(ml.levels[l].A.shape[0] % 2 for l in range(nlev - 1)):
             pre, post = [(nm, dict(kw, blocksize=1)) if kw.get('blocksize') == 2 else (nm, kw) for nm, kw in (pre, post)]
         from pyamg.relaxation.smoothing import change_smoothers
         try:
-            change_smoothers(ml, presmoother=pre, postsmoother=post)
+            change_smoothers(ml, presmoother=None if pre[0] == 'none' else pre, postsmoother=None if post[0] == 'none' else post)
         except Exception as e:   # noqa
             ctx.notes.append('change_smoothers %s/%s on %s: %r' % (pre[0], post[0], bname, e))
             continue
